@@ -75,6 +75,12 @@ fn write_body(
         } else {
             source.to_writer(&mut enc)?;
         }
+
+        // Flush the last base64 quantum and the last (partial) line explicitly: the `Drop`
+        // implementations would do it too, but they discard write errors.
+        enc.finish()?;
+        drop(enc);
+        line_wrapper.finish()?;
     }
 
     Ok(())
@@ -123,6 +129,11 @@ impl<W: std::io::Write> Base64Encoder<W> {
             writer,
             &general_purpose::STANDARD,
         ))
+    }
+
+    /// Writes the final (padded) base64 quantum, reporting any error of the underlying writer.
+    pub(crate) fn finish(&mut self) -> std::io::Result<()> {
+        self.0.finish().map(|_| ())
     }
 }
 impl<W: std::io::Write> std::io::Write for Base64Encoder<W> {
